@@ -20,7 +20,11 @@ package orderedmap
 //@ func New
 //@ prop C05 C06 C04
 //@ nopanic
-//@ ensures fresh-empty (and (fresh result) (omOK result) (= (len result.Pairs) 0))
+//@ modifies (obj result) (map result.inner)
+//@ ensures fresh-empty (and (fresh result) (omOK result) (= (len result.Pairs) 0) (isnil result.Pairs) (fresh result.inner))
+//@ ensures nothing-else-touched (and
+//@   (forall ((o (typeof result))) (=> (allocated-before o) (= (deref o) (old (deref o)))))
+//@   (forall ((r (typeof result.inner))) (=> (allocated-before r) (and (= (mapdom r) (old (mapdom r))) (= (mapvals r) (old (mapvals r))) (= (len r) (old (len r)))))))
 
 //@ func (*OrderedMap).rehydrate
 //@ prop C06 C05
@@ -80,5 +84,7 @@ package orderedmap
 //@ ensures other-entries-kept (forall ((k (keyof m.inner))) (=> (and (not (= k key)) (old (mapin m.inner k))) (and (= (mapget m.inner k) (old (mapget m.inner k))) (= (deref (mapget m.inner k)) (old (deref (mapget m.inner k)))))))
 //@ ensures overwrite-keeps-order (=> (old (mapin m.inner key)) (and (= m.Pairs (old m.Pairs)) (= (mapget m.inner key) (old (mapget m.inner key))) (forall ((i Int)) (=> (omInRange m i) (= (omPair m i) (old (omPair m i)))))))
 //@ ensures insert-appends (=> (not (old (mapin m.inner key))) (and (= (len m.Pairs) (+ (old (len m.Pairs)) 1)) (= (omPair m (old (len m.Pairs))) (mapget m.inner key)) (fresh (mapget m.inner key)) (forall ((i Int)) (=> (and (<= 0 i) (< i (old (len m.Pairs)))) (= (omPair m i) (old (omPair m i)))))))
-//@ ensures other-pairs-untouched (forall ((p (typeof (omPair m 0)))) (=> (and (allocated-before p) (not (= p (old (mapget m.inner key))))) (= (deref p) (old (deref p)))))
+//@ ensures pairs-array-kept-or-fresh (or (= (arrof m.Pairs) (old (arrof m.Pairs))) (fresh m.Pairs))
+//@ ensures other-arrays-untouched (forall ((a Int)) (=> (and (allocated-before a) (or (= a 0) (not (= a (old (arrof m.Pairs)))))) (= (rowat m.Pairs a) (old (rowat m.Pairs a)))))
+//@ ensures other-pairs-untouched (forall ((p (typeof (omPair m 0)))) (=> (and (allocated-before p) (not (and (old (mapin m.inner key)) (= p (old (mapget m.inner key)))))) (= (deref p) (old (deref p)))))
 //@ ensures others-untouched (omOthersUntouched m)
